@@ -116,10 +116,23 @@ def write_nifti_image(data: Tensor, grid: Grid, path: PathUri) -> None:
         raise ValueError("write_image() data.ndim must be equal to grid.ndim or grid.ndim + 1")
     # Reverse order of axes
     dataobj = np.transpose(data.numpy(), axes=tuple(reversed(range(data.ndim))))
-    # Convert to NIfTI RAS convention
-    affine = grid.affine().cpu().numpy()
+    # Scalar images have no channel axis; vector-valued images store the components along the
+    # 5th dimension with intent code NIFTI_INTENT_VECTOR (same layout as written by ITK)
+    D = grid.ndim
+    C = dataobj.shape[-1]
+    if C == 1:
+        dataobj = dataobj.reshape(dataobj.shape[:-1])
+    else:
+        dataobj = dataobj.reshape(dataobj.shape[:-1] + (1,) * (4 - D) + (C,))
+    # Homogeneous index to world matrix in NIfTI RAS convention
+    affine = np.eye(4, dtype=np.float64)
+    affine[:D, :D] = grid.affine().cpu().numpy()
+    affine[:D, 3] = grid.origin().cpu().numpy()
     affine[:2] *= -1
+    image = nib.Nifti1Image(dataobj, affine)
+    if C > 1:
+        image.header.set_intent(1007)
     with StorageObject.from_path(path) as obj:
         local_path = unlink_or_mkdir(obj.path)
-        nib.save(nib.Nifti1Image(dataobj, affine), str(local_path))
+        nib.save(image, str(local_path))
         obj.push(force=True)
